@@ -155,6 +155,8 @@ def run(ctx):
                     nl.dump(fn)
                     for how in ('path', 'text'):
                         nl2 = am.NeighborList(model=fn if how == 'path' else open(fn).read())
+                        if not np.array_equal(np.asarray(nl2.nlist)[:, 0], np.asarray(nl2.coord)) or not np.array_equal(np.asarray(nl.nlist)[:, 0], np.asarray(nl.coord)):
+                            ctx.violation('nlist[dumpload_%s]: first column of the neighbour table is not the coordination number' % how, '', dict(base))
                         recs.append(dict(base, ev='nlist', nl=_lists(nl2), coord=[int(x) for x in nl2.coord],
                                          tag='dumpload_%s:%d:k%d' % (how, si, kind)))
             except Exception as e:
